@@ -26,7 +26,7 @@ META = {
         'sin phi sin theta, cos theta), x_to_angles reads arctan2(y, x) and arccos(z/r) with no other definition of theta, both apply '
         '90 - . under latitude; C18.NOMUT - the transforms do not modify data borrowed from the input frames. NOT decided: symmetry, '
         'range, accuracy over nine decades, isometry, "never NaN" (numerical).'),
-    'floors': {'C18.ROT': 7, 'C18.NODE': 5, 'C18.STRIPE': 3, 'C18.UNITS': 4, 'C18.HAVERSINE': 2, 'C18.ANG-INV': 5, 'C18.NOMUT': 2},
+    'floors': {'C18.ASIN-CLIP': 2, 'C18.ROT': 7, 'C18.NODE': 5, 'C18.STRIPE': 3, 'C18.UNITS': 4, 'C18.HAVERSINE': 2, 'C18.ANG-INV': 5, 'C18.NOMUT': 2},
     'trusted_base': ['published SDSS survey-coordinate convention: (mu, nu) is a rotation by the inclination about the x axis through the node'],
 }
 
@@ -100,6 +100,33 @@ def rot_check(ctx, repo, q, lat_name, transpose):
     ctx.need(len(at2) == 1 and len(asn) == 1, '%s: arctan2 / arcsin calls not found' % q)
     Y, X = at2[0].args[0], at2[0].args[1]
     Z = asn[0].args[0]
+    # ASIN-CLIP: the z component is a sum of products of sines and cosines; rounding can carry it to 1.0000000000000002 at the
+    # pole of the great circle, where arcsin returns NaN.  It must be clamped to exactly [-1, 1] and nothing inside may change.
+    Zd = fa.deep(Z)
+    clipped, why = False, 'no clamp: `%s`' % src(Z)[:50]
+    if isinstance(Zd, ast.Call) and call_name(Zd) == 'clip' and len(Zd.args) + len(Zd.keywords) >= 3:
+        lo, hi = (Zd.args + [k.value for k in Zd.keywords])[1:3]
+        clipped = try_fold(lo) == -1 and try_fold(hi) == 1
+        why = 'clip bounds %s, %s' % (src(lo), src(hi))
+        Z = Zd.args[0]
+    elif isinstance(Zd, ast.Call) and call_name(Zd) in ('minimum', 'maximum') and len(Zd.args) == 2 and isinstance(Zd.args[0], ast.Call) \
+            and call_name(Zd.args[0]) in ('minimum', 'maximum') and call_name(Zd.args[0]) != call_name(Zd):
+        b1, b2 = try_fold(Zd.args[1]), try_fold(Zd.args[0].args[1])
+        clipped = {call_name(Zd): b1, call_name(Zd.args[0]): b2} == {'minimum': 1, 'maximum': -1}
+        why = 'min/max bounds %s, %s' % (b1, b2)
+        Z = Zd.args[0].args[0]
+    elif isinstance(Zd, ast.Call) and call_name(Zd) == 'where' and len(Zd.args) == 3:
+        # np.where(|z| > c, sign(z), z): in-range values are altered unless c >= 1
+        cond = Zd.args[0]
+        c_ = try_fold(cond.comparators[0]) if isinstance(cond, ast.Compare) and len(cond.ops) == 1 else None
+        clipped = isinstance(cond, ast.Compare) and isinstance(cond.ops[0], (ast.Gt, ast.GtE)) and isinstance(c_, (int, float)) and c_ >= 1 \
+            and 'sign' in src(Zd.args[1])
+        why = 'np.where snaps |z| > %s to +-1: points within %s of the pole are moved onto it' % (src(cond.comparators[0]) if isinstance(cond, ast.Compare) else '?',
+                                                                                              'a fixed tolerance')
+        Z = Zd.args[2]
+    ctx.check('C18.ASIN-CLIP', clipped, f, asn[0], '%s: the arcsin argument is clamped to exactly [-1, 1] (%s)' % (q, why),
+              msg='%s: arcsin receives %s: at the pole of a stripe\'s great circle rounding gives |z| = 1 + 2e-16 and the latitude is NaN '
+                  '(or in-range values are altered by a tolerance below 1)' % (q, why), construct='%s arcsin argument: %s' % (q, src(Zd)[:70]))
     atom = trig_atoms(fa)
     try:
         px, py, pz = (poly_of(e, atom=atom, resolve=fa.resolve) for e in (X, Y, Z))
@@ -267,8 +294,14 @@ def check_gcirc(ctx, repo):
                 p = -p
             return '%s(%s)' % (call_name(e), p)
         return None
+    from ..inline import inline_calls
+    radicand = fa.deep(sq[0].args[0])
+
+    def resolve_inl(n):
+        d = fa.resolve(n)
+        return inline_calls(d, repo, f) if d is not None else None
     try:
-        p = poly_of(sq[0].args[0], atom=atom, resolve=fa.resolve)
+        p = poly_of(inline_calls(radicand, repo, f), atom=atom, resolve=resolve_inl)
     except NotPoly as e:
         raise AnalysisError('C18: gcirc haversine is not polynomial: %s' % e)
     A = Poly.atom
@@ -281,8 +314,12 @@ def check_gcirc(ctx, repo):
         return -pp if items and items[0][1] < 0 else pp
     sd, sr = 'sin(%s)' % canon(dd), 'sin(%s)' % canon(dr)
     want = A(sd) * A(sd) + A('cos(dcrad1)') * A('cos(dcrad2)') * A(sr) * A(sr)
+    cancel = [str(k) for k in p.t for a_ in (k if isinstance(k, tuple) else (k,)) if str(a_).startswith('cos(') and
+              (('dcrad1' in str(a_) and 'dcrad2' in str(a_)) or ('rarad1' in str(a_) and 'rarad2' in str(a_)))]
     ctx.check('C18.HAVERSINE', p == want, f, sq[0], 'sin^2(d/2) = sin^2(ddec/2) + cos(dec1) cos(dec2) sin^2(dra/2)',
-              msg='the haversine radicand is %s; the great-circle identity requires %s' % (p, want), construct='haversine %s' % p)
+              msg=('the haversine radicand is %s: a half-angle term is computed as (1 - cos d)/2, which cancels catastrophically for small d '
+                   '(relative error 4e-4 at 0.1 arcsec, distance exactly 0 below a few mas); sin(d/2)**2 is required' % p) if cancel else
+                  ('the haversine radicand is %s; the great-circle identity requires %s' % (p, want)), construct='haversine %s' % p)
     d = [st for st in walk_local(f.node) if isinstance(st, ast.Assign) and src(st.targets[0]) == 'dis']
     ok = bool(d) and src(d[0].value).replace(' ', '') in ('2.0*np.arcsin(sindis)', '2*np.arcsin(sindis)') and src(sq[0]._parent.targets[0]) == 'sindis'
     ctx.check('C18.HAVERSINE', ok, f, d[0] if d else f.node, 'd = 2 arcsin(sqrt(.))', msg='the distance is not 2*arcsin(sqrt(haversine))', construct='distance from haversine')
